@@ -21,7 +21,8 @@ Malformed == {
     <<48, 128, 128, 128, 128, 1>>, <<54, 3, 0, 1, 97>>,                        \* over-long length; QoS 3
     <<48, 4, 0, 2, 195, 40>>, <<48, 5, 0, 1, 43, 0, 0>>,                       \* bad UTF-8 topic; wildcard in topic name
     <<130, 2, 0, 1>>, <<130, 6, 0, 1, 0, 1, 97, 3>>,                           \* empty subscription; bad QoS / option
-    <<16, 8, 0, 4, 77, 81, 84, 84, 9, 2>> }                                    \* unknown protocol level
+    <<16, 8, 0, 4, 77, 81, 84, 84, 9, 2>>,
+    <<0>>, <<54, 128>>, <<54, 128, 128, 128, 128, 1>>, <<97, 128, 128>> }       \* invalid first byte AND a cut / over-long length                                    \* unknown protocol level
 MCStreams == Valid \cup {s \o <<255>> : s \in Valid} \cup {SubSeq(s, 1, Len(s) - 1) : s \in Valid}
              \cup Malformed \cup {Frame(48, WideBody), SubSeq(Frame(48, WideBody), 1, 100)}
 MCKinds == {"ConnectionReset", "TimedOut"}
